@@ -22,7 +22,34 @@ def job_file(path, want_follow):
         n_states = sum(len(d) for d in g.nonterminal_to_dfas.values())
         n_trans = sum(len(s.transitions) for d in g.nonterminal_to_dfas.values() for s in d)
         sample = {'grammar': label, 'rules': len(spec.order), 'dfa_states': n_states, 'transitions': n_trans}
+    res += namespace_identity(text, label)
     return {'label': label, 'text_path': path, 'results': res, 'sample': sample}
+
+
+def namespace_identity(text, label):
+    """the token keys of the tables must be members of the namespace that was passed in THIS call (a second
+    call with another namespace must not be served from anything keyed by the text alone)"""
+    import enum
+    from parso.pgen2.generator import generate_grammar, ReservedString
+    from parso.python.token import PythonTokenTypes, TokenType
+    t0 = time.time()
+    generate_grammar(text, PythonTokenTypes)
+    Alt = enum.Enum('AltTokenTypes', {m.name: TokenType(m.name, m.value.contains_syntax) for m in PythonTokenTypes})
+    g2 = generate_grammar(text, Alt)
+    foreign = 0
+    n = 0
+    for dfas in g2.nonterminal_to_dfas.values():
+        for s in dfas:
+            for k in s.transitions:
+                if not isinstance(k, ReservedString):
+                    n += 1
+                    if k is not getattr(Alt, k.name, None):
+                        foreign += 1
+    ok = foreign == 0 and n > 0
+    return [dict(name='%s:O5-token-namespace' % label, verdict='holds' if ok else 'violated', seconds=time.time() - t0,
+                 detail='%d token keys of a second generation with another namespace belong to that namespace' % n if ok else
+                 '%d of %d token keys belong to a namespace of an EARLIER call' % (foreign, n), nonvacuous=n > 0,
+                 kind='table-compare', **({} if ok else {'witness': {'kind': 'namespace'}}))]
 
 
 # ---- built-in broken twins: each must be reported as violated (vacuity guard) ----------------
@@ -135,7 +162,17 @@ def systematic_grammar(index):
         _SYS['terms'] = terms
     terms = _SYS['terms']
     if index >= len(terms):
-        return None
+        # second family: the helper rule refers back to r0 (indirect left recursion, mutual reference)
+        if 'terms2' not in _SYS:
+            t2 = []
+            for n in range(3):
+                t2 += systematic_terms(n, ["'a'", "'b'", 'r1'])
+            _SYS['terms2'] = t2
+        j = index - len(terms)
+        if j >= 2 * len(_SYS['terms2']):
+            return None
+        r1 = "r0 'b' | 'a'" if j % 2 == 0 else "'a' [r0] 'b'"
+        return "r0: %s\nr1: %s\n" % (_SYS['terms2'][j // 2], r1)
     return "r0: %s\nr1: 'b' 'a' | 'a'\n" % terms[index]
 
 
